@@ -187,10 +187,12 @@ class CQN(RLAlgorithm):
             if action_mask is None:
                 action = np.random.randint(0, self.action_dim, size=len(obs))
             else:
+                # NOTE: Masked entries must lose against a legal action that draws exactly zero
                 action = np.argmax(
-                    (
-                        np.random.uniform(0, 1, (len(obs), self.action_dim))
-                        * action_mask
+                    np.where(
+                        np.asarray(action_mask).astype(bool),
+                        np.random.uniform(0, 1, (len(obs), self.action_dim)),
+                        -1.0,
                     ),
                     axis=1,
                 )
